@@ -16,12 +16,12 @@ import (
 	k8slabels "k8s.io/apimachinery/pkg/labels"
 	"k8s.io/apimachinery/pkg/util/intstr"
 
+	"github.com/projectcalico/calico/lib/std/uniquelabels"
 	"github.com/projectcalico/calico/libcalico-go/lib/backend/k8s/conversion"
 	"github.com/projectcalico/calico/libcalico-go/lib/backend/model"
 	"github.com/projectcalico/calico/libcalico-go/lib/backend/syncersv1/updateprocessors"
 	cnet "github.com/projectcalico/calico/libcalico-go/lib/net"
 	"github.com/projectcalico/calico/libcalico-go/lib/selector"
-	"github.com/projectcalico/calico/lib/std/uniquelabels"
 	"github.com/projectcalico/calico/zzverif/vk"
 )
 
@@ -340,8 +340,8 @@ type c29CalPolicy struct {
 }
 
 type c29CalRule struct {
-	r                                  *model.Rule
-	src, dst, notSrc, notDst           *selector.Selector
+	r                        *model.Rule
+	src, dst, notSrc, notDst *selector.Selector
 }
 
 func c29ParseSel(s string) (*selector.Selector, error) {
@@ -671,6 +671,35 @@ func c29Ports() []c29Named[networkingv1.NetworkPolicyPort] {
 	}
 }
 
+// c29ExceptLattice: CIDRs nested inside the ipBlock 10.0.0.0/8 (which covers all pod addresses), in a containment
+// lattice: /16 > two disjoint /24s > a /32, plus the block itself.  c29LatticeProbes holds one address per region.
+var c29ExceptLattice = []string{"10.0.0.0/16", "10.0.1.0/24", "10.0.1.2/32", "10.0.2.0/24", "10.0.0.0/8"}
+
+// pods sit at 10.0.1.1, 10.0.1.2 (ns1) and 10.0.2.1, 10.0.2.2 (ns2); these two cover the remaining regions:
+// inside the /16 but in neither /24, and inside the /8 but outside the /16.
+var c29LatticeProbes = []netip.Addr{netip.MustParseAddr("10.0.3.1"), netip.MustParseAddr("10.1.0.1"), netip.MustParseAddr("10.0.2.9")}
+
+// c29LatticePeers: ipBlock 10.0.0.0/8 with every except list of length 0-3 over the lattice, in every listing
+// order and with repetitions (nested narrow-before-broad and broad-before-narrow, duplicates, disjoint, except == cidr).
+func c29LatticePeers() []c29Named[networkingv1.NetworkPolicyPeer] {
+	var out []c29Named[networkingv1.NetworkPolicyPeer]
+	var rec func(ex []string)
+	rec = func(ex []string) {
+		out = append(out, c29Named[networkingv1.NetworkPolicyPeer]{
+			Name: fmt.Sprintf("ipblock(10/8 except %v)", ex),
+			V:    networkingv1.NetworkPolicyPeer{IPBlock: &networkingv1.IPBlock{CIDR: "10.0.0.0/8", Except: append([]string{}, ex...)}},
+		})
+		if len(ex) == 3 {
+			return
+		}
+		for _, c := range c29ExceptLattice {
+			rec(append(append([]string{}, ex...), c))
+		}
+	}
+	rec(nil)
+	return out
+}
+
 // c29Subsets returns the index lists of all subsets of {0..n-1} with at most max elements (ordered).
 func c29Subsets(n, max int) [][]int {
 	out := [][]int{{}}
@@ -823,13 +852,14 @@ func (g *c29Gen) build(s c29Spec) *networkingv1.NetworkPolicy {
 var c29Conns = []c29Conn{{c29TCP, 80}, {c29TCP, 81}, {c29TCP, 82}, {c29UDP, 53}, {c29UDP, 80}, {c29SCTP, 80}, {c29ICMP, 0}}
 
 type c29Worker struct {
-	c      *vk.Ctx
-	cl     *c29Cluster
-	g      *c29Gen
-	states int64
-	evals  int64
-	seen   map[string]bool
-	outc   map[string]bool
+	extraExternal []netip.Addr // additional external probe addresses (ipBlock lattice slice)
+	c             *vk.Ctx
+	cl            *c29Cluster
+	g             *c29Gen
+	states        int64
+	evals         int64
+	seen          map[string]bool
+	outc          map[string]bool
 }
 
 func (w *c29Worker) flush() {
@@ -890,6 +920,9 @@ func (w *c29Worker) checkPolicies(specs []c29Spec, phase string) {
 				}
 			}
 			for _, e := range w.cl.External {
+				peers = append(peers, peerT{nil, e})
+			}
+			for _, e := range w.extraExternal {
 				peers = append(peers, peerT{nil, e})
 			}
 			for _, peer := range peers {
@@ -984,12 +1017,15 @@ func TestVerif_C29(t *testing.T) {
 		c.Rule("Cluster: namespaces ns1{team=a}, ns2{team=b}; pods ns1/p1{app=web,tier=fe; http=tcp/80}, ns1/p2{app=db; http=tcp/81}, ns2/p3{app=web; http=tcp/80, dns=udp/53}, ns2/p4{}; external 192.168.1.1, 192.168.2.1, 172.16.0.1. " +
 			"Policies: namespace x podSelector (7 shapes: empty, matchLabels, In, NotIn, Exists, DoesNotExist, labels+expression) x policyTypes {absent, Ingress, Egress, both} x rules built from 10 peers " +
 			"(pod/namespace/both selectors incl. empty ones, ipBlock with 0-2 excepts incl. one covering pod IPs) and 11 ports (explicit/default protocol, protocol only, named, endPort range, adjacent ports, empty struct, SCTP); " +
-			"peer and port lists of length 0-2 in both orders. Slices: S1 one rule (ingress or egress) with the full peer-list x port-list product; S2 two rules in one direction; S3 one ingress + one egress rule; S4 two policies at once. " +
+			"peer and port lists of length 0-2 in both orders; plus ipBlock 10.0.0.0/8 with every except list of length 0-3 (all orders, repetitions) over the lattice {10.0.0.0/16, 10.0.1.0/24, 10.0.1.2/32, 10.0.2.0/24, 10.0.0.0/8}, probed additionally at 10.0.3.1, 10.1.0.1, 10.0.2.9 (slice S5). Slices: S1 one rule (ingress or egress) with the full peer-list x port-list product; S2 two rules in one direction; S3 one ingress + one egress rule; S4 two policies at once. " +
 			"Every policy is evaluated for every pod x direction x (3 other pods + 3 external addresses) x 7 connections (tcp/80,81,82 udp/53,80 sctp/80 icmp). Non-trivial = the policy isolates at least one pod.")
 		c.Assume("The Calico meaning of the converted model.Policy is given by the harness evaluator c29CalicoAllows (rule fields ANDed, first match decides, applicable policy without match denies, otherwise the namespace profile decides) using the real selector package; Felix's calculation graph and dataplanes are covered by other properties.")
 		c.Assume("Pod IPs are what policy sees (no NAT); ipBlock is matched on the peer address whether or not it belongs to a pod.")
 
 		nPeers, nPorts := len(g.peers), len(g.ports)
+		// the ipBlock-except lattice peers are appended after the main pool (the main slices use indexes < nPeers)
+		g.peers = append(g.peers, c29LatticePeers()...)
+		nLattice := len(g.peers) - nPeers
 		peerSets2, portSets2 := c29Subsets(nPeers, 2), c29Subsets(nPorts, 2)
 		if c.Quick() {
 			// quick tier: peer pairs in one order only (port pairs keep both orders: SimplifyPorts sorts them)
@@ -1091,6 +1127,40 @@ func TestVerif_C29(t *testing.T) {
 							w.c.Capped("deadline in S2/S3")
 							return
 						}
+					}
+				}
+			}
+		}
+		// S5: ipBlock except lattice (nested / duplicate / disjoint / except == cidr, every listing order), probed at
+		// one address per region of the lattice.
+		for _, ingress := range []bool{true, false} {
+			jobs <- func(w *c29Worker) {
+				w.extraExternal = c29LatticeProbes
+				defer func() { w.extraExternal = nil }()
+				for li := 0; li < nLattice; li++ {
+					for _, others := range [][]int{nil, {0}, {7}} { // alone, next to a pod selector, next to another ipBlock
+						for _, po := range [][]int{nil, {0}} {
+							for _, first := range []bool{true, false} {
+								if len(others) == 0 && !first {
+									continue
+								}
+								pe := append([]int{nPeers + li}, others...)
+								if !first {
+									pe = append(append([]int{}, others...), nPeers+li)
+								}
+								s := c29Spec{NS: "ns1", PodSel: 0, Types: 3}
+								if ingress {
+									s.Ingress = []c29Rule{{pe, po}}
+								} else {
+									s.Egress = []c29Rule{{pe, po}}
+								}
+								w.checkPolicies([]c29Spec{s}, "S5")
+							}
+						}
+					}
+					if w.c.Expired() {
+						w.c.Capped("deadline in S5")
+						return
 					}
 				}
 			}
